@@ -232,6 +232,15 @@ static void width_family(void)
     }
 }
 
+static void on_trailing(const uint8_t *b, size_t n, int kind, const char *label, void *u)
+{
+    (void) u;
+    if (!take()) return;
+    vf_count(CT_WIDTH_CASES, 1);
+    eval_input(b, n, label, kind);
+}
+static void trailing_family(void) { vf_trailing_inputs(on_trailing, NULL); }
+
 /* two adjacent names sharing a long common prefix, in every order relation: a comparison that truncates its length
  * (8 / 16 bits), stops at a NUL or mis-handles the prefix rule shows only here */
 static void name_order_family(void)
@@ -387,6 +396,7 @@ static void worker(int w, int W, uint64_t start)
     DEPTHS = depths_full; NDEPTHS = 5;
     towers();
     width_family();
+    trailing_family();
     name_order_family();
     corpus("valid_objects");
     corpus("bad_objects");
